@@ -147,6 +147,7 @@ def judge(ctx, jobs, skel, nproc=12):
             c["xlim"] = [D(r["xlim"][0]), D(r["xlim"][1])] if sk["hasrange"] else [fl_(r["xlim"][0]), ce_(r["xlim"][1])]
             c["ylim"] = [D(r["ylim"][0]), D(r["ylim"][1])] if (sk["hasrange"] and not sk["lifetime"]) else [fl_(r["ylim"][0]), ce_(r["ylim"][1])]
             c["xlabel"], c["ylabel"], c["stitle"], c["haslegend"], c["legtexts"] = r["xlabel"], r["ylabel"], r["title"], r["haslegend"], r["legtexts"]
+            c["colllabels"], c["reflabels"] = r.get("colllabels", []), r.get("reflabels", [])
         elif sk["kind"] == "landscape":
             c.pop("dr", None)
             c["content"] = [[[D(x), D(y)] for x, y in d] for d in r["content"]]
